@@ -226,14 +226,17 @@ Local Open Scope string_scope.
    prefix outside this list survives.
    fixed: property=C20 PENDING class 1 (collector net fees exported as zero-valued records) - the row
           ("collector", 8) is gone: GetAllNetFeeCollectedData unmarshals the stored value;
+   fixed: property=C20 PENDING class 2 (auctionsV2 InitGenesis set the auction id and the user bid id
+          to 0 although both are exported) - the rows ("auctionsV2", 1 | 5) are gone;
+   fixed: property=C20 PENDING class 7 (auction V1 InitGenesis filled the lend dutch auctions from the
+          DutchAuction field) - the row ("auction", 32) is gone;
    fixed: property=C20 PENDING class 12 (collector lookup table imported through the validating
           setter, InitGenesis returning on its error) - the rows ("collector", 3 | 1 | 5 | 7) are
           gone: InitGenesis stores the exported records with SetGenCollectorLookupTable. *)
 Definition known_holes : list (string * Z * Z) :=
-  [ (* 2: auctionsV2 InitGenesis ignores the exported AuctionId / UserBiddingID (sets 0), and never
-          restores the limit-bid id *)
-    ("auctionsV2", 1, 2); ("auctionsV2", 5, 2); ("auctionsV2", 3, 2);
-    (* 3: auctionsV2 bids, limit bids, protocol data and histories are not exported *)
+  [ (* 3: auctionsV2 bids, limit bids (and their id counter), protocol data and histories are in no
+          GenesisState field *)
+    ("auctionsV2", 3, 3);
     ("auctionsV2", 6, 3); ("auctionsV2", 7, 3); ("auctionsV2", 8, 3); ("auctionsV2", 9, 3);
     ("auctionsV2", 17, 3); ("auctionsV2", 18, 3); ("auctionsV2", 19, 3); ("auctionsV2", 20, 3);
     (* 4: liquidation V1 restores LockedVaultID as the NUMBER of locked vaults *)
@@ -242,10 +245,6 @@ Definition known_holes : list (string * Z * Z) :=
     ("liquidationsV2", 3, 5);
     (* 6: the liquidation sweep offsets are not exported *)
     ("liquidation", 22, 6); ("liquidationsV2", 2, 6);
-    (* 7: auction V1: lend dutch auctions imported from the DutchAuction field, biddings and
-          histories not exported, auction ids taken from the last dutch auction only *)
-    ("auction", 32, 7); ("auction", 18, 7); ("auction", 21, 7); ("auction", 22, 7);
-    ("auction", 33, 7); ("auction", 34, 7); ("auction", 35, 7); ("auction", 19, 7); ("auction", 25, 7);
     (* 8: vault does not export StableMintVaultRewards *)
     ("vault", 24, 8);
     (* 9: the locker id counter is neither exported nor imported *)
@@ -254,15 +253,21 @@ Definition known_holes : list (string * Z * Z) :=
            can be deleted, or the last element): the id of a closed newest record is handed out again *)
     ("vault", 21, 10); ("rewards", 34, 10); ("rewards", 40, 10);
     ("lend", 22, 10); ("lend", 23, 10); ("lend", 24, 10); ("lend", 37, 10);
-    (* 11: further records that no genesis field carries *)
+    (* 11: further records that no genesis field carries (read from the table only) *)
     ("asset", 36, 11); ("collector", 9, 11); ("esm", 16, 11); ("esm", 17, 11); ("lend", 81, 11);
-    ("liquidation", 18, 11); ("liquidation", 23, 11); ("liquidationsV2", 7, 11);
+    ("liquidationsV2", 7, 11);
     ("rewards", 21, 11); ("rewards", 22, 11); ("rewards", 23, 11); ("rewards", 32, 11);
     ("rewards", 41, 11); ("rewards", 48, 11);
     (* 13: esm: the kill switches are imported through SetKillSwitchData, which validates against the
            asset module (the app must exist) and on whose error InitGenesis returns; the user deposits
            and the cool-off data come after it *)
-    ("esm", 4, 13); ("esm", 5, 13); ("esm", 7, 13) ].
+    ("esm", 4, 13); ("esm", 5, 13); ("esm", 7, 13);
+    (* 14: auction V1: biddings and histories are not exported; both auction id counters are taken
+           from the LAST exported (lend) dutch auction only *)
+    ("auction", 18, 14); ("auction", 21, 14); ("auction", 22, 14);
+    ("auction", 33, 14); ("auction", 34, 14); ("auction", 35, 14); ("auction", 19, 14); ("auction", 25, 14);
+    (* 15: liquidation V1: the locked-vault histories are not exported *)
+    ("liquidation", 18, 15); ("liquidation", 23, 15) ].
 Local Close Scope string_scope.
 
 Definition kf_C20 (n : Z) (m : string) (b : Z) : bool :=
